@@ -876,6 +876,13 @@ class World:
             # (C03 territory); the result is dropped
             del t
             return Outcome("nofail")
+        if getattr(od, "assoc_free", False) and out_arr is None and sout.shape == t.data.shape and sout.dtype == t.data.dtype:
+            # same mathematical value, another order of floating-point operations: adopt MyGrad's
+            # bits when they agree up to rounding (forward parity is not what any claimed property asks)
+            eps = np.finfo(sout.dtype).eps if sout.dtype.kind == "f" else 0
+            scale = max(float(np.max(np.abs(sout))) if sout.size else 0.0, 1.0)
+            if sout.dtype.kind == "f" and np.allclose(t.data, sout, rtol=256 * eps, atol=256 * eps * scale * 8, equal_nan=True):
+                sout = np.array(t.data, copy=True)
         self.T[h] = t
         if out_arr is not None and self.tracking and self.guard:
             self._enter_array(out_arr)
